@@ -342,7 +342,7 @@ pub fn record<C: Serialize>(
         return Ok(());
     }
     for c in &obs.classes {
-        *st.classes.entry(c.to_string()).or_default() += 1;
+        *st.classes.entry(format!("{}/{}", part, c)).or_default() += 1;
     }
     if obs.nontrivial {
         st.nontrivial += 1;
@@ -687,7 +687,10 @@ pub fn finish(ctx: &Ctx) -> i32 {
     // flag classes the generator hardly produced
     let mut thin = vec![];
     for (k, v) in &st.classes {
-        if st.evaluations > 0 && (*v as f64) < 0.01 * st.evaluations as f64 {
+        // classes are keyed part/class; compare with the number of cases of that part
+        let part = k.split('/').next().unwrap_or("");
+        let total = st.parts.get(part).copied().unwrap_or(st.evaluations);
+        if total > 0 && (*v as f64) < 0.01 * total as f64 {
             thin.push(k.clone());
         }
     }
